@@ -16,7 +16,7 @@ import ast
 from ..model import Func, Cls, Lib, AnalysisError
 from ..terms import T, walk_terms
 from ..absint import AV, TOP, is_bot, cav
-from ..walk import (SCOPE_MODULES_C20, ctx_tree, public_callables, norm_stmt, callee_name, callee_func, call_paths, strip_views)
+from ..walk import (SCOPE_MODULES_C20, ctx_tree, public_callables, norm_stmt, callee_name, callee_func, call_paths, strip_views, const_val)
 
 # the one exception named by the property statement
 ALLOWED_MUTATION = {
@@ -209,6 +209,27 @@ def check_state(run, A):
                                     (e2.seq > e.seq and not any(any(x.op == 'attr' and x.args[0] is selfp and x.args[1] == attr for x in walk_terms(c, into_mu=False)) for c, _ in e2.guards)):
                                 has_assert = True
             lazily_set.setdefault((fn.cls.qual, attr), []).append(fn.qual)
+            if attr == 'dimension':
+                # what is remembered / compared is the FEATURE dimension of the observation: the last axis (a leading axis has nothing to do with the
+                # tables the trainer caches, and happens to agree between calls with the same batch size)
+                def feature_dim(t):
+                    from ..walk import shape_dim
+                    sd = shape_dim(t)          # x.shape[-1] / *_, D = x.shape / _, D = x.shape[-2:] ...
+                    return sd is not None and sd[1] == -1 and any(x.op == 'param' and x is not selfp for x in walk_terms(sd[0], into_mu=False))
+                okv = feature_dim(e.term)
+                cmps = []
+                for e2 in g.events:
+                    if e2.kind == 'assert' and e2.term is not None:
+                        for t in walk_terms(e2.term, into_mu=False):
+                            if t.op == 'cmp' and t.args[0] == 'Eq':
+                                sides = [strip_views(t.args[1]), strip_views(t.args[2])]
+                                mine = [x for x in sides if x.op == 'attr' and x.args[0] is selfp and x.args[1] == attr]
+                                if len(mine) == 1:
+                                    cmps.append(sides[1] if sides[0] is mine[0] else sides[0])
+                okc = all(feature_dim(x) for x in cmps)
+                run.check(okv and okc, 'R-STATE', f'{fn.qual}: the remembered dimension is the feature dimension', fn.loc(e.node), '',
+                          f'stored value is <observation>.shape[-1]: {okv}; the mismatch assert compares with <observation>.shape[-1]: {okc}',
+                          construct=f'R-STATE::{fn.qual}::dimension-is-last-axis')
             run.check(ok_guard and has_assert, 'R-STATE', f'{fn.qual} lazily sets self.{attr}', fn.loc(e.node),
                       'written only when None, asserted equal otherwise',
                       f'`{norm_stmt(e.node)}`: attribute of a reusable object is overwritten outside __init__ '
